@@ -66,7 +66,10 @@ def gen(rng, tier):
         second = {'n': n2, 'data': world.gen_trace(rng, vars_, n2)}
     order = list(vars_)
     rng.shuffle(order)
-    return {'vars': vars_, 'ast': ast, 'text': text, 'n': n, 'data': data, 'clocks': clocks, 'fired': fired,
+    # a re-configured object: it was used with spec.unit = 'ms' and a 1 ms period, then only the unit is set to 's'
+    # (every unit-less bound now means 1000 samples)
+    reunit = rng.random() < 0.08 and not any(x[0] in sg.TBIN for x in sg.walk(ast)) and not consts
+    return {'reunit': reunit, 'vars': vars_, 'ast': ast, 'text': text, 'n': n, 'data': data, 'clocks': clocks, 'fired': fired,
             'cls': cls, 'order': order, 'consts': consts, 'second': second}
 
 
@@ -133,6 +136,23 @@ def run(sc):
             r.obs.append(out2)
             if not (isinstance(out2, list) and len(out2) == sec['n'] and M.list_eq([p[1] for p in out2], ref2)):
                 r.violate('value-equals-reference', second_log=True, spec=text, first=data, data=sec['data'], got=out2, want=ref2)
+    if sc.get('reunit') and any(x[0] in sg.TUN for x in sg.walk(ast)):
+        try:
+            ref3 = eval_discrete(common.scale_bounds(ast, 1000), data, n)
+        except RefError:
+            ref3 = None
+        if ref3 is not None:
+            r.faults['object_reconfigured_after_use'] += 1
+            d3 = dict(desc, unit='s', sampling=[1, 'ms', 0.1],
+                      prior={'unit': 'ms', 'sampling': [1, 'ms', 0.1], 'data': data, 'times': list(range(n))})
+            try:
+                out3 = M.dt_evaluate(M.build(d3), [i * 0.001 for i in range(n)], data, sc.get('order'))
+                r.evals += 1
+                if not (isinstance(out3, list) and len(out3) == n and M.list_eq([p[1] for p in out3], ref3)):
+                    r.violate('value-equals-reference', reconfigured=True, spec=text, data=data, got=out3, want=ref3)
+            except M.ApiCrash as e:
+                r.crashes[e.exc_type] += 1
+                r.violate('evaluate-raised', reconfigured=True, **e.describe())
     r.evals += 1
     for vals in outs[1:]:
         if not M.list_eq(vals, outs[0]):
@@ -174,6 +194,10 @@ def shrinks(sc):
         if s.get('second'):
             c = dict(s)
             c['second'] = None
+            yield c
+        if s.get('reunit'):
+            c = dict(s)
+            c['reunit'] = False
             yield c
         if s.get('cls') != 'dt_off':
             c = dict(s)
